@@ -117,6 +117,13 @@ while len(cases) < ncase:
         elif k == 2:
             f = formula(wide_nested(1))
             g = formula(wide_nested(rng.randint(0, 2)))
+            # the operands have been printed (and their Hill form read) before they are combined,
+            # so a cached printed form that is not invalidated shows
+            _ = (str(f), repr(g), f.hill, g.hill)
+            h = wide_count() * f
+            _ = str(h)
+            h += g
+            add_case(h, "arithmetic")
             add_case(wide_count() * f + wide_count() * g, "arithmetic")
         elif k == 3:
             parts = []
@@ -125,6 +132,7 @@ while len(cases) < ncase:
             add_case((mix_by_weight if rng.random() < 0.5 else mix_by_volume)(*parts), "mixture")
         else:
             f = formula(wide_nested(2))
+            _ = (str(f), f.hill)
             f2 = wide_count() * f
             f2 += formula(pool.atom())
             add_case(f2, "arithmetic")
